@@ -67,7 +67,7 @@ func observe(t *biscuit.Biscuit, panel [][]AuthOp, g *scenGen) string {
 }
 
 func runC08(c *Ctx) {
-	c.Rule = "random histories (20-40 operations quick, up to 150 thorough) over a growing family: build, create-block (several builders from one parent before any is built), interleaved add-fact / add-rule / add-check on live builders with fresh symbols, build-block, append (to the parent or to a sibling), seal, serialize + unmarshal, get-block-id, authorizer-for + authorize, print; symbol tables steered across capacity boundaries (2-17 symbols). After every operation every live token is observed and must be unchanged; at the end the Lean wire model decodes every live token and must find exactly what its own callers put in. Non-trivial = a history in which at least two builders were created from the same parent before one of them was built; distinct = distinct final token byte strings."
+	c.Rule = "random histories (20-40 operations quick, up to 150 thorough) over a growing family: build, create-block (several builders from one parent before any is built), interleaved add-fact / add-rule / add-check on live builders with fresh symbols, build-block, further adds to a builder after its Build(), append (to the parent or to a sibling), seal, serialize + unmarshal, get-block-id, authorizer-for + authorize, print; symbol tables steered across capacity boundaries (2-17 symbols). After every operation every live token is observed and must be unchanged; at the end the Lean wire model decodes every live token and must find exactly what its own callers put in. Non-trivial = a history in which at least two builders were created from the same parent before one of them was built; distinct = distinct final token byte strings."
 	r := NewRng(c.Seed)
 	n := 150
 	steps := 30
@@ -83,6 +83,7 @@ func runC08(c *Ctx) {
 		var toks []*famTok
 		var builders []*famBuilder
 		var blocks []*famBlock
+		var spent []biscuit.BlockBuilder // builders whose Build() was already called
 		rd := &detRand{r.Fork()}
 		sym := 0
 		freshFact := func() Pred {
@@ -149,6 +150,19 @@ func runC08(c *Ctx) {
 					builders = append(builders, &famBuilder{bb: toks[pi].tok.CreateBlock(), parent: pi, name: fmt.Sprintf("bb%d", len(builders))})
 				}
 				op = fmt.Sprintf("create-block x%d on %s", cnt, toks[pi].name)
+			case k < 12 && len(spent) > 0 && r.Chance(1, 4): // keep filling a builder whose block was already built
+				b := Pick(r, spent)
+				f := freshFact()
+				switch r.Intn(3) {
+				case 0:
+					b.AddFact(biscuit.Fact{Predicate: f.ToBiscuit()})
+				case 1:
+					b.AddCheck(freshCheck().ToBiscuit())
+				default:
+					b.AddRule(Rule{Head: f, Body: []Pred{{Name: "p", Terms: []Term{V("x")}}}}.ToBiscuit())
+				}
+				op = "add to a builder after its Build()"
+				c.Count("add-after-build")
 			case k < 12 && len(builders) > 0: // add to a live builder
 				b := Pick(r, builders)
 				switch r.Intn(3) {
@@ -175,6 +189,7 @@ func runC08(c *Ctx) {
 				b := builders[bi]
 				blocks = append(blocks, &famBlock{blk: b.bb.Build(), parent: b.parent, content: b.content, name: "blk-of-" + b.name})
 				builders = append(builders[:bi], builders[bi+1:]...)
+				spent = append(spent, b.bb)
 				op = "build-block " + b.name
 			case k < 16 && len(blocks) > 0: // append to the parent
 				bi := r.Intn(len(blocks))
